@@ -503,8 +503,32 @@ func ExtendVoucher[T protocol.PublicKeyOrChain](v *Voucher, owner crypto.Signer,
 		return nil, fmt.Errorf("error marshaling next owner public key: %w", err)
 	}
 
+	// The next owner key must also be of the manufacturer key's type and size
+	nextOwnerKey, err := nextOwnerPublicKey.Public()
+	if err != nil {
+		return nil, fmt.Errorf("error parsing next owner public key: %w", err)
+	}
+	switch next := nextOwnerKey.(type) {
+	case *ecdsa.PublicKey:
+		if ownerPub, ok := ownerPubKey.(*ecdsa.PublicKey); !ok || ownerPub.Curve != next.Curve {
+			return nil, fmt.Errorf("next owner key did not match the type and size/curve of the manufacturer key")
+		}
+	case *rsa.PublicKey:
+		if ownerPub, ok := ownerPubKey.(*rsa.PublicKey); !ok || ownerPub.Size() != next.Size() {
+			return nil, fmt.Errorf("next owner key did not match the type and size/curve of the manufacturer key")
+		}
+	default:
+		return nil, fmt.Errorf("unsupported next owner key type: %T", next)
+	}
+
 	// Select the appropriate hash algorithm
-	devicePubKey := (*v.CertChain)[0].PublicKey
+	devicePubKey, err := v.DevicePublicKey()
+	if err != nil {
+		return nil, fmt.Errorf("error getting device public key of voucher to extend: %w", err)
+	}
+	if devicePubKey == nil {
+		return nil, fmt.Errorf("voucher to extend has no device certificate chain")
+	}
 	alg, err := hashAlgFor(devicePubKey, ownerPubKey)
 	if err != nil {
 		return nil, fmt.Errorf("error selecting the appropriate hash algorithm: %w", err)
